@@ -5,7 +5,7 @@ use blots_core::ast::{Expr, Spanned, SpannedExpr};
 use blots_core::environment::Environment;
 use blots_core::error::RuntimeError;
 use blots_core::expressions::{evaluate_pairs, pairs_to_expr, pairs_to_expr_with_comments};
-use blots_core::formatter::{format_statement, join_statements_with_spacing};
+use blots_core::formatter::{format_statement_preserving_comments, join_statements_with_spacing};
 use blots_core::functions::clear_function_call_stats;
 use blots_core::heap::{Heap, HeapPointer, HeapValue, IterablePointer};
 use blots_core::parser::{Rule, get_pairs};
@@ -340,13 +340,15 @@ pub fn format_source_lib(src: &str, width: Option<usize>) -> Result<String, Stri
                 let formatted = match first.as_rule() {
                     Rule::comment => first.as_str().to_string(),
                     Rule::output_declaration => {
+                        let original = first.as_str();
                         let e = pairs_to_expr_with_comments(first.into_inner()).map_err(|e| format!("ast: {}", e))?;
                         let o = Spanned::dummy(Expr::Output { expr: Box::new(e) });
-                        format_statement(&o, width, stmts.is_empty())
+                        format_statement_preserving_comments(&o, original, width, stmts.is_empty())
                     }
                     _ => {
+                        let original = first.as_str();
                         let e = pairs_to_expr_with_comments(first.into_inner()).map_err(|e| format!("ast: {}", e))?;
-                        format_statement(&e, width, stmts.is_empty())
+                        format_statement_preserving_comments(&e, original, width, stmts.is_empty())
                     }
                 };
                 let fin = match inner.next() {
